@@ -3037,6 +3037,7 @@ class _EDNSMessage(tputil.FancyEqMixin):
             rCode=self.rCode & 0xF,
             authenticData=self.authenticData,
             checkingDisabled=self.checkingDisabled,
+            maxSize=self.maxSize,
         )
 
         m.queries = self.queries[:]
